@@ -47,6 +47,73 @@ CHECKS = {
     },
 }
 
+STUB_RAYON = "rayon (replaced by simrayon: simulated worker count 1..16,17,24,32,33,48,64; tape-chosen leaf splitting, task order, interleaving, scope/spawn order)"
+STUB_ALLOC = "global allocator (per-run poison fill of fresh blocks so an unwritten uninit_vector slot is visible; single-request cap)"
+
+CHECKS.update({
+    "C12": {
+        "engine": "engines",
+        "configs": ["serial", "concurrent"],
+        "level": "exploration",
+        "technique": "deterministic simulation of the data-parallel FFT kernels on a tape-driven rayon stand-in (every worker count, task orders, interleavings) plus the serial build; oracle = reference model (Horner evaluation / inverse), poisoned allocator",
+        "level_text": "Seeded exploration over (field, extension, size 2..2^16, blowup, offset, degree, operation) x (simulated worker count, schedule). Both builds are compared with naive evaluation, so they are also compared with each other. Thread-count-dependent chunk arithmetic and the three aliasing `unsafe` sites are where a schedule can matter; task-atomic reordering exposes any conflict between two tasks.",
+        "level_note": "Trusts field arithmetic (C10 is outside this technique). Reference is complete for n <= 512 and domain <= 4096, 48 sampled points above. Sub-task interleavings of two conflicting tasks are not explored (they cannot create a failure no task order exposes unless the conflict is value-neutral in both orders). simrayon is a model of rayon, not rayon.",
+        "design_ref": "DESIGN.md 3/C12, 2.2",
+        "rule": "a case = (element type of 8, size, blowup, offset class, true degree, operation of 7, worker count, schedule decisions); distinct = distinct hash of (element type, log size, operation, worker count, interleaving signature of every parallel region); every case is non-trivial (n >= 2).",
+        "assumptions": ["field arithmetic is exact (C10, not claimed)", "simrayon explores task-atomic serialisations of each parallel region"],
+        "real_vs_stub": {"real": ["winter-math fft (serial and concurrent modules), get_power_series, field arithmetic"], "stub": [STUB_RAYON, STUB_ALLOC]},
+    },
+    "C14": {
+        "engine": "engines",
+        "configs": ["serial", "concurrent"],
+        "level": "exploration",
+        "technique": "deterministic simulation of the batch utilities on the tape-driven rayon stand-in at every worker count, with lengths placed around each batching boundary; oracle = element-wise reference model; poisoned allocator",
+        "level_text": "Seeded exploration over (operation, element type, length class, zero placement) x (worker count, schedule). Lengths are drawn relative to 1024 * next_power_of_two(workers), the point where batching switches on, including lengths not divisible by the batch count.",
+        "level_note": "Trusts E::inv / mul for single elements. Lengths up to about 5 batches (<= 330k elements at 64 workers).",
+        "design_ref": "DESIGN.md 3/C14",
+        "rule": "a case = (operation, element type, length, zero style, worker count, schedule); distinct = distinct hash of (operation, element type, length, worker count, interleaving signature); non-trivial = length >= 2.",
+        "assumptions": ["single-element field operations are exact (C10, not claimed)"],
+        "real_vs_stub": {"real": ["winter-math utils, winter-utils slice helpers and batch_iter_mut!/iter_mut! macros"], "stub": [STUB_RAYON, STUB_ALLOC]},
+    },
+    "C18": {
+        "engine": "engines",
+        "configs": ["serial", "concurrent"],
+        "level": "exploration",
+        "technique": "deterministic simulation of the parallel Merkle build (scope/spawn sub-tree tasks, aliased node buffer) on the rayon stand-in; oracle = recursive-hash reference model for root, every node, single paths; batch openings cross-checked four ways",
+        "level_text": "Seeded exploration over (hasher of 6, 2..2^14 leaves, index sets of 1..255 in ascending / descending / shuffled order, sibling-heavy and clustered sets) x (worker count incl. non powers of two, spawn/steal order). The parallel builder hands aliased &mut slices to scope tasks; any overlap shows as a node mismatch under some task order.",
+        "level_note": "Rescue-based hashers are limited to 2^12 leaves for cost. Single openings are checked at all indexes up to 64 leaves, 13 sampled indexes above.",
+        "design_ref": "DESIGN.md 3/C18",
+        "rule": "a case = (hasher, leaf count, worker count, schedule, 1-3 index sets with order style); distinct = distinct hash of (hasher, log leaves, worker count, scope task order, index-set shape); all non-trivial.",
+        "assumptions": ["Hasher::merge / hash are deterministic functions (C15/C16, not claimed)"],
+        "real_vs_stub": {"real": ["winter-crypto MerkleTree, BatchMerkleProof, concurrent::build_merkle_nodes, hashers"], "stub": [STUB_RAYON, STUB_ALLOC]},
+    },
+    "C19": {
+        "engine": "engines",
+        "configs": ["serial"],
+        "thorough_extra_configs": ["checked"],
+        "level": "fault_enumeration",
+        "technique": "deterministic simulation with fault injection on Merkle openings treated as messages: same-shape substitutions (leaf, node, index, duplicate, out-of-range) must be rejected; shape-changing faults and wire damage (bit flip, truncation, count byte, random bytes) must not panic",
+        "level_text": "Fault enumeration: a fixed catalogue of 8 substitution faults (oracle: Err) and 12 shape/wire faults, 1-3 per run (oracle: no panic, abort or hang) applied to honest openings of trees of 2..512 leaves over 6 hashers. Rejection relies on collision resistance: a false accept has probability < 2^-96 per run.",
+        "level_note": "Extra trailing proof nodes are not generated as 'differing data' (the statement does not require their rejection). The thorough tier repeats the malformed arm in a build with debug assertions and overflow checks.",
+        "design_ref": "DESIGN.md 3/C19",
+        "rule": "a case = (hasher, leaf count, index set, fault list); distinct = distinct hash of (hasher, log leaves, fault kinds); every case injects at least one fault inside the opening.",
+        "assumptions": ["hash functions are collision resistant (probability of a chance accept < 2^-96)"],
+        "real_vs_stub": {"real": ["winter-crypto MerkleTree::verify / verify_batch, BatchMerkleProof::get_root / into_openings / read_from"], "stub": ["the link carrying the opening (fault injector)", STUB_ALLOC]},
+    },
+    "C20": {
+        "engine": "engines",
+        "configs": ["serial"],
+        "level": "exploration",
+        "technique": "deterministic simulation of the public coin as a replicated state machine: two replicas and an executable reference model (documented derivation from hasher primitives) fed one tape-drawn history; history fault (one reseed digest substituted on a third replica); refinement checked event by event",
+        "level_text": "Seeded exploration over histories of new / reseed / draw<E> (base, quadratic, cubic) / draw_integers / check_leading_zeros for 12 hasher x field combinations. Weakest fit of the claimed properties (the coin is sequential), but it is the state machine that keeps prover and verifier in lockstep, and history refinement against a model is what this family offers.",
+        "level_note": "The reference model follows the derivation documented on DefaultRandomCoin (seed = hash(elements); next = hash(seed || ++counter); reseed = hash(old || new), counter reset; draw_integers reseeds with the nonce). draw_integers is only called within its documented precondition 1 <= n < domain.",
+        "design_ref": "DESIGN.md 3/C20",
+        "rule": "a case = (hasher/field of 12, seed length, history of 2..25 events, fault position); distinct = distinct hash of (hasher/field, seed length) - conservative, histories are not hashed; all non-trivial.",
+        "assumptions": ["inequality after a substituted reseed is checked only on draws with >= 62 bits of entropy (chance equality < 2^-61)"],
+        "real_vs_stub": {"real": ["winter-crypto DefaultRandomCoin, hashers"], "stub": ["none (the second replica and the reference coin are harness code)"]},
+    },
+})
+
 PLANNED = "check planned in DESIGN.md but not built yet in this revision"
 
 NOT_APPLICABLE = {
